@@ -39,7 +39,7 @@ impl Property for C01 {
         }
     }
     fn rule(&self) -> String {
-        "Generated histories (fork trees with arrival orders, per-block difficulties, transaction graphs over a small script pool incl. prefix-colliding bech32 address pairs, shared transactions, same-block spends, threshold changes, upgrades) on all three networks; after every operation (and, in 40% of the histories, after every paused round of a time-sliced ingestion with budgets of 1..5 operations) every pool address is queried without filter through the real endpoint and through the page-size hook (all pages followed) and compared in both directions with a naive replay ledger as of the block the answer names as tip. A query is non-trivial when the expected set is non-empty and (the address has stable funds changed by unstable blocks, or the history has had a reorg / shared transaction / same-block spend, or a funded address whose text extends the queried one exists); distinct = distinct (tree shape, query result shape) hashes.".into()
+        "Generated histories (fork trees with arrival orders, per-block difficulties, transaction graphs over a small script pool incl. prefix-colliding bech32 address pairs, shared transactions, same-block spends, threshold changes, upgrades) on all three networks; after every operation (and, in 40% of the histories, after every paused round of a time-sliced ingestion with budgets of 1..5 operations, at every fourth pause right after an upgrade performed at that pause) every pool address is queried without filter through the real endpoint and through the page-size hook (all pages followed) and compared in both directions with a naive replay ledger as of the block the answer names as tip. A query is non-trivial when the expected set is non-empty and (the address has stable funds changed by unstable blocks, or the history has had a reorg / shared transaction / same-block spend, or a funded address whose text extends the queried one exists); distinct = distinct (tree shape, query result shape) hashes.".into()
     }
     fn assumptions(&self) -> Vec<String> {
         vec![
@@ -67,6 +67,7 @@ impl Property for C01 {
             "driver_validated_mined",
             "q_multi_page",
             "q_while_ingestion_paused",
+            "q_after_upgrade_while_ingestion_paused",
         ]
     }
     fn fuzz_sequences(&self) -> Vec<(&'static str, usize)> {
@@ -93,6 +94,16 @@ impl Property for C01 {
             let info = w.apply_with(i, op, &mut |w2: &mut World, round: u32| {
                 // a query asked while the stabilising block is only partially ingested
                 pause_out.class("q_while_ingestion_paused");
+                // ... at every fourth pause right after an upgrade at that very point
+                if (i + round as usize) % 4 == 1 {
+                    match sut::upgrade(None) {
+                        Ok(()) => pause_out.class("q_after_upgrade_while_ingestion_paused"),
+                        Err(p) => {
+                            pause_out.fail(format!("step {i} paused round {round}: upgrade trapped: {p}"));
+                            return;
+                        }
+                    }
+                }
                 for a in &addrs_p {
                     let ctx = format!("step {i} paused round {round} get_utxos({a})");
                     match sut::get_utxos_all_pages(net, a, &Filter::None, if round % 2 == 0 { None } else { Some(200 + (round as usize % 3)) }) {
